@@ -87,7 +87,7 @@ class UnitBuilder:
         u = self.load()
         u2 = Unit(self.cache_dir, dict(self.uspec.opts))
         for attr in ('decl', 'parent', 'qname_of', 'records', 'enums', 'aliases', 'fn_by_cname', 'cname_of', 'fn_nodes',
-                     'srcinfo', 'redirect'):
+                     'srcinfo', 'redirect', 'labels'):
             setattr(u2, attr, getattr(u, attr))
         u2.hooks = SpecHooks(self.uspec)
         u2.self_stub = set(selfstubs); u2.canary_fns = set(canaries)
@@ -186,7 +186,7 @@ def run_query(builder, q, vars_, tier, workroot):
                 res.reason = 'bodiless function %s is not replaced by a contract' % s; return res
         timeout = q.timeout or (180 if tier == 'quick' else 900)
         gb1 = os.path.join(qdir, 'a.gb'); gb2 = os.path.join(qdir, 'b.gb')
-        rc, so, se, dt = run(['goto-cc', '-I' + SHIMS] + list(uspec.cflags) + ['--function', 'harness', cfile, '-o', gb1], 120)
+        rc, so, se, dt = run(['goto-cc', '-I' + SHIMS] + list(uspec.cflags) + list(q.cflags) + ['--function', 'harness', cfile, '-o', gb1], 120)
         if rc != 0:
             res.reason = 'goto-cc failed: ' + (so + se)[-1500:]; return res
         if q.pre_unwind:
@@ -234,7 +234,7 @@ def run_query(builder, q, vars_, tier, workroot):
             res.reason = 'goto-instrument failed: ' + (so + se)[-2500:]; return res
         obits = q.object_bits or 8
         while True:
-            cb = ['cbmc', gb2] + DEFAULT_CHECKS + ['--json-ui', '--object-bits', str(obits), '--no-malloc-may-fail']
+            cb = ['cbmc', gb2] + (['--no-standard-checks'] if q.checks == 'none' else DEFAULT_CHECKS) + ['--json-ui', '--object-bits', str(obits), '--no-malloc-may-fail']
             if q.unwindset: cb += ['--unwindset', ','.join(subst(x, vars_).replace('TARGET', target + '_wrapped_for_contract_checking') for x in q.unwindset)]
             cb += [subst(f, vars_) for f in q.flags]
             rc, so, se, dt = run(cb, timeout)
@@ -256,6 +256,8 @@ def run_query(builder, q, vars_, tier, workroot):
         alltext = '\n'.join(msgs)
         if results is None:
             res.reason = 'cbmc gave no result list (rc=%s): %s' % (rc, alltext[-1500:]); return res
+        if 'ran out of memory' in alltext or 'Out of memory' in alltext:
+            res.reason = 'cbmc ran out of memory'; return res
         if 'ignoring forall' in alltext or 'ignoring exists' in alltext:
             res.reason = 'quantifier ignored by back end'; return res
         classes = set()
@@ -269,6 +271,13 @@ def run_query(builder, q, vars_, tier, workroot):
                 if res.canaries.get(desc) != 'FAILURE': res.canaries[desc] = st
                 continue
             if desc.startswith('canary_other'): continue
+            if desc.startswith('spec.'):
+                ob = {'name': desc[5:], 'property': prop, 'description': desc, 'status': st, 'c_line': line, 'cxx_line': nearest_src(slm, line) if line else None, 'function': fn}
+                res.obligations.append(ob)
+                if st != 'SUCCESS':
+                    if 'trace' in r: ob['trace'] = r['trace']
+                    res.failed.append(ob)
+                continue
             labels = lm.get(line, []) if line else []
             if line and not labels and ('loop_invariant' in prop or 'loop_decreases' in prop):
                 # loop obligations are located at the loop head; the invariant clauses follow within a few lines
